@@ -1,3 +1,4 @@
+import Gomjml.Core.Util
 namespace Gomjml.Cache
 /-! Model of the AST cache (`mjml/render.go`: `parseAST`, `startASTCacheCleanup`, `StopASTCacheCleanup`,
     the two once-only setters) and its refinement to the stateless compiler.  C13 / C14 / the cleanup half of C15.
@@ -19,7 +20,6 @@ structure Entry where
   ttlAt : Int           -- ghost: the TTL in force when it was stored
 deriving Repr, DecidableEq
 
-deriving instance DecidableEq for Except
 
 /-- `minASTCacheCleanupInterval` (one second, in nanoseconds) -/
 def minInterval : Int := 1000000000
